@@ -7,7 +7,7 @@ import common
 import enc
 import lspclient
 
-ALPHA = ["a", "é", "€", "😀", "\r", "\n", " ", "x", "\r\n"]
+ALPHA = ["a", "é", "€", "😀", "\r", "\n", " ", "x", "\r\n", "\ufeff"]
 
 
 # ---- independent client-side model of LSP texts (python strings, UTF-16 columns) ----
